@@ -146,6 +146,13 @@ def main(argv=None):
 
     # ---- 3. E1 jobs ---------------------------------------------------------------------
     jobs = mod.JOBS(tier) if hasattr(mod, "JOBS") else []
+    # single-index enumeration harnesses: the size of each partition's product space is computed from its dimensions
+    if hasattr(mod, "DIMS"):
+        from kit.h import space_size
+        for j in jobs:
+            fn = mod.DIMS.get(j["func"])
+            if fn is not None and "n" not in j["part"]:
+                j["part"]["n"] = space_size(fn(j["part"]))
     if a.only:
         jobs = [j for j in jobs if a.only in job_label(j)]
     if seed:
